@@ -145,3 +145,53 @@ Print Assumptions C11_old_after_dot_refuted_local.
 Print Assumptions C11_operand_type_refuted_forward.
 Print Assumptions C11_workspace_recase.
 Print Assumptions C11_workspace_recase_nonvacuous.
+
+(* ---- completion at tree level, one document (Model/DefTree.v: DefTree.completion on the real
+   tree and the tables of Model/Annot.v; engine deftree of checks/c10.py) ---- *)
+From GoldV Require Import Lexer Tree Annot AnnotProofs DefTree DefTreeProofs DefTreeWitness.
+
+(* where generate_completion_proposals lists the plain names (the encasing node is no dot
+   operation and not under one): generate_completion_items_lhs on the chain of the encasing method *)
+Theorem C11_tree_plain_case :
+  forall t stem p idx enc pi q up ch,
+    flat_methods t = true -> chain_for t (descend p t) = Some ch ->
+    path_up p t = (idx, enc) :: (pi, q) :: up -> is_dot enc = false -> is_dot q = false ->
+    completion t stem p = if foreign_parent t then Outside else Ans (labels_lhs ch).
+Proof. exact completion_plain_case. Qed.
+
+(* the property itself, ANY tables: the labels are the variables / constants of C18's merged
+   listing of the chain; each name once ignoring case; a label is offered iff the nearest, latest
+   declaration of that name along the chain is a variable or a constant, spelled as declared *)
+Theorem C11_tree_plain :
+  forall ch,
+    let c := map scope_of ch in
+    labels_lhs ch = map sid (filter is_plain_kind (merged c)) /\
+    NoDup (map upper (labels_lhs ch)) /\
+    (forall l, In l (labels_lhs ch) <-> exists x, spec_get c l = Some x /\ sid x = l /\ is_plain_kind x = true).
+Proof. exact labels_lhs_merged. Qed.
+
+(* refinement: in the k-th method of a regular document the labels are those of the abstract model
+   on entity_of_tree t, in the same order -- elsewhere in the body, and after `self.` *)
+Theorem C11_tree_plain_refines :
+  forall t k mt, regular t ->
+    nth_error (method_tables_of false t) k = Some mt ->
+    let e := entity_of_tree t in
+    exists me, nth_error (e_methods e) k = Some me /\
+      labels_lhs [mt; root_table_of false t] = map sid (filter is_plain_kind (collect (abs_chain e me))) /\
+      labels_rhs [root_table_of false t] = map sid (filter is_member_kind (collect [root_table e])).
+Proof. exact compltree_plain_refines. Qed.
+
+Example C11_tree_nonvacuous :
+  regular deftree_ex /\ foreign_parent deftree_ex = false /\
+  completion deftree_ex dx_aFoo (mkPos 7 1) = Ans [[112]; [70;97]; [108]; [99;65]] /\   (* p, Fa, l, cA *)
+  completion deftree_ex dx_aFoo (mkPos 6 6) = Ans [[102;97]; [82;117;110]] /\           (* self. -> fa, Run *)
+  complete_plain [entity_of_tree deftree_ex] dx_aFoo (Some [82;117;110]) = [[112]; [70;97]; [108]; [99;65]].
+Proof.
+  destruct deftree_ex_facts as (H1 & _ & _ & _ & _ & _ & _ & _ & _ & _ & _ & H12 & H13 & _ & H15).
+  split; [apply regularb_ok; exact H1|]. split; [vm_compute; reflexivity|]. repeat split; assumption.
+Qed.
+
+Print Assumptions C11_tree_plain_case.
+Print Assumptions C11_tree_plain.
+Print Assumptions C11_tree_plain_refines.
+Print Assumptions C11_tree_nonvacuous.
